@@ -414,6 +414,150 @@ func limitCase(idx int64, r *rand.Rand) {
 	}
 }
 
+// ---------------------------------------------------------------- A3': the limit's metrics behind a limiter
+
+// limiterPathCase: an instrumented AIMD limit behind a DefaultLimiter (virtual time).  The in-flight sample the limit
+// emits for a window is the largest in-flight count at admission among the completions of that window - dropped ones
+// included - and the drop counter moves iff the window contained a drop.
+func limiterPathCase(t *testing.T, idx int64, r *rand.Rand) {
+	var sig string
+	var detail rt.J
+	windows := 0
+	rt.Bubble(func() {
+		synctest.Test(t, func(t *testing.T) {
+			reg := inject.NewRecRegistry()
+			l := limit.NewAIMDLimit("own", 50, 0.9, 1, reg)
+			idIF := core.PrefixMetricWithName(core.MetricInFlight, "own")
+			idDrop := core.PrefixMetricWithName(core.MetricDropped, "own")
+			dl, err := limiter.NewDefaultLimiter(l, 1, 1, 0, 10, strategy.NewSimpleStrategy(50), limit.NoopLimitLogger{}, core.EmptyMetricRegistryInstance)
+			if err != nil {
+				panic(err)
+			}
+			type held struct {
+				l  core.Listener
+				at int // in-flight count at its admission (itself included)
+			}
+			var hs []held
+			peak, sawDrop := 0, false
+			reg.Drain()
+			for i := 0; i < 200+r.IntN(300) && sig == ""; i++ {
+				if len(hs) < 1+r.IntN(8) {
+					li, ok := dl.Acquire(context.Background())
+					if !ok {
+						sig, detail = "harness-acquire-refused", rt.J{}
+						return
+					}
+					hs = append(hs, held{li, len(hs) + 1})
+					continue
+				}
+				time.Sleep(time.Duration(1+r.IntN(1000)) * time.Microsecond)
+				k := r.IntN(len(hs))
+				h := hs[k]
+				hs = append(hs[:k], hs[k+1:]...)
+				drop := r.IntN(6) == 0
+				if h.at > peak {
+					peak = h.at
+				}
+				if drop {
+					sawDrop = true
+					h.l.OnDropped()
+				} else {
+					h.l.OnSuccess()
+				}
+				var ifs []float64
+				drops := 0
+				for _, ev := range reg.Drain() {
+					switch ev.ID {
+					case idIF:
+						ifs = append(ifs, ev.Value)
+					case idDrop:
+						drops++
+					}
+				}
+				if len(ifs) == 0 {
+					continue
+				}
+				windows++
+				rt.Count("limiter_path_windows", 1)
+				if len(ifs) != 1 || int(ifs[0]) != peak {
+					sig, detail = "in-flight-sample-of-the-window-differs-from-the-peak-at-admission", rt.J{"emitted": ifs, "peak_at_admission_incl_dropped": peak, "window_had_drop": sawDrop}
+				} else if (drops == 1) != sawDrop || drops > 1 {
+					sig, detail = "drop-counter-disagrees-with-the-window", rt.J{"increments": drops, "window_had_drop": sawDrop}
+				}
+				peak, sawDrop = 0, false
+			}
+			for _, h := range hs {
+				h.l.OnIgnore()
+			}
+		})
+	}, "C20")
+	if sig != "" {
+		rt.Violation("C20/limiter-path/"+sig, idx, detail)
+		return
+	}
+	if windows > 0 {
+		rt.Distinct(fmt.Sprintf("lpath|%d|%d", windows, idx))
+	}
+}
+
+// concurrentLimiterInflight: many goroutines acquire and complete on a limiter whose limit is a constant L.  Never more
+// than L requests are in flight, so no in-flight figure the limiter hands to the algorithm (and the algorithm publishes
+// as its in-flight metric) may exceed L.
+func concurrentLimiterInflight(idx int64, r *rand.Rand) {
+	L := 2 + r.IntN(3)
+	rec := inject.NewScriptedLimit(L, func(int) int { return L })
+	var st core.Strategy = strategy.NewSimpleStrategy(L)
+	kind := "simple"
+	if r.IntN(2) == 0 {
+		st, kind = strategy.NewPreciseStrategy(L), "precise"
+	}
+	dl, err := limiter.NewDefaultLimiter(rec, 1, 1, 0, 10, st, limit.NoopLimitLogger{}, core.EmptyMetricRegistryInstance)
+	if err != nil {
+		panic(err)
+	}
+	nG := 6 + r.IntN(11)
+	var wg sync.WaitGroup
+	for g := 0; g < nG; g++ {
+		wg.Add(1)
+		go func(g int) {
+			defer wg.Done()
+			for i := 0; i < 400; i++ {
+				l, ok := dl.Acquire(context.Background())
+				if !ok {
+					runtime.Gosched()
+					continue
+				}
+				if (i+g)%3 == 0 {
+					runtime.Gosched()
+				}
+				if (i+g)%11 == 0 {
+					l.OnDropped()
+				} else {
+					l.OnSuccess()
+				}
+			}
+		}(g)
+	}
+	wg.Wait()
+	samples := rec.Samples()
+	rt.Count("concurrent_limiter_inflight_samples", int64(len(samples)))
+	over := 0
+	worst := 0
+	for _, sm := range samples {
+		if sm.InFlight > L {
+			over++
+			if sm.InFlight > worst {
+				worst = sm.InFlight
+			}
+		}
+	}
+	if over > 0 {
+		rt.Violation("C20/limiter+"+kind+"/in-flight-figure-above-what-was-ever-in-flight", idx, rt.J{"limit": L, "goroutines": nG, "samples": len(samples), "samples_above_the_limit": over, "largest": worst})
+		return
+	}
+	rt.Distinct(fmt.Sprintf("clif|%s|%d|%d|%d", kind, L, nG, len(samples)))
+}
+
 // ---------------------------------------------------------------- A4: queue limiter gauges
 
 func queueGaugeCase(idx int64, r *rand.Rand) {
@@ -1169,6 +1313,10 @@ func TestCheck(t *testing.T) {
 			gaugePollCase(idx, r)
 		case idx%48 == 17:
 			queueGaugeDynamic(t, idx, r)
+		case idx%48 == 37:
+			limiterPathCase(t, idx, r)
+		case idx%24 == 5:
+			concurrentLimiterInflight(idx, r)
 		case idx%96 == 43:
 			addrCase(idx, r)
 		case m == 0:
